@@ -16,8 +16,8 @@ IMPORTS = ("From SpdVerif Require Import Base.Rx Base.PolingBase Gen.Poling Gen.
 # the property's table (mirrors Spec/SweepPaths.v; the Coq side proves the generated table against that file)
 PATHS = {}
 for _b in ("signal", "idler"):
-    PATHS.update({f"{_b}.theta_deg": (f"{_b}.theta_deg", "deg"), f"{_b}.theta_external_deg": (f"{_b}.theta_deg", "external"),
-                  f"{_b}.phi_deg": (f"{_b}.phi_deg", "deg"), f"{_b}.frequency_thz": (f"{_b}.wavelength_nm", "thz"),
+    PATHS.update({f"{_b}.theta_deg": (f"{_b}.theta_deg", "theta"), f"{_b}.theta_external_deg": (f"{_b}.theta_deg", "external"),
+                  f"{_b}.phi_deg": (f"{_b}.phi_deg", "phi"), f"{_b}.frequency_thz": (f"{_b}.wavelength_nm", "thz"),
                   f"{_b}.wavelength_nm": (f"{_b}.wavelength_nm", "direct"), f"{_b}.waist_um": (f"{_b}.waist_um", "direct"),
                   f"{_b}.waist_position_um": (f"{_b}.waist_position_um", "direct")})
 PATHS.update({"crystal.phi_deg": ("crystal.phi_deg", "direct"), "crystal.theta_deg": ("crystal.theta_deg", "direct"),
@@ -67,12 +67,33 @@ def cfg_diff(before, after):
 
 
 def expected_shown(path, v):
-    """value the named configuration field must show, and a tolerance (the view keeps 4 decimals)"""
+    """value the named configuration field must show, and a tolerance (the view keeps 4 decimals).
+    Beam angles are kept normalised, as documented on Beam: polar angle in (-180, 180], azimuth in [0, 360)."""
     key, kind = PATHS[path]
     if kind == "thz":
         lam_nm = C_LIGHT / (v * 1e12) * 1e9     # THz = 1e12 cycles per second
         return lam_nm, 1.01e-4
+    if kind == "theta":
+        w = math.fmod(v, 360.0)
+        if w > 180.0:
+            w -= 360.0
+        elif w <= -180.0:
+            w += 360.0
+        return w, 0.51e-4
+    if kind == "phi":
+        w = math.fmod(v, 360.0)
+        if w < 0:
+            w += 360.0
+        return w, 0.51e-4
     return v, 0.51e-4
+
+
+def angle_in_documented_range(kind, shown):
+    if kind == "theta":
+        return -180.0 < shown <= 180.0
+    if kind == "phi":
+        return (0.0 <= shown < 360.0) or shown == 0.0
+    return True
 
 
 # ------------------------------------------------------------------------------------------------ S5 oracle
@@ -97,6 +118,10 @@ def oracle(ctx, obs):
                 ctx.violation("S5", f"SPDCIter::try_new rejects the documented property path {o['path']!r}", {"kind": "known_rejected", "path": o["path"]}, o)
         elif k == "sweep":
             oracle_sweep(ctx, o)
+        elif k == "sweep_panic":
+            # panics belong to C17 (errors, never panics); here they only reduce coverage
+            ctx.count("sweep:panicked")
+            ctx.note(f"sweep over {o['p1']} x {o['p2']} on base {o['base']} panicked inside a setter: {o['msg'][:120]}")
         elif k == "sweep_err":
             ctx.violation("S5", f"sweep over {o['p1']} x {o['p2']} rejected: {o['err']}", {"kind": "sweep_err", "path": o["p1"]}, o)
 
@@ -106,6 +131,8 @@ def oracle_set(ctx, o):
     key, kind = PATHS[path]
     ctx.seen(("set", base, path, o["v"]))
     ctx.count(f"set:{kind}")
+    if kind in ("theta", "phi") and not angle_in_documented_range(kind, v):
+        ctx.count(f"set:{kind}:wraps")
     before, after = o["before"], o["after"]
     diff = cfg_diff(before, after)
     call = f"SPDCIter::try_new(<{base}>, {path!r}, …) with value {v!r}"
@@ -137,7 +164,7 @@ def oracle_set(ctx, o):
     if kind == "external":
         te = fh(o["theta_external_deg"])
         rep["theta_external_deg_after"] = te
-        if abs(te - v) > 1e-5 * max(1.0, abs(v)):
+        if abs(te - v) > 1e-3:   # accuracy of the Snell search itself belongs to C13; a missing / wrong conversion is off by tens of percent
             ctx.violation("S5", f"{call}: the stored internal angle {shown!r} deg corresponds to an external angle of {te!r} deg, not {v!r}",
                           {"kind": "external", "path": path}, rep)
         return
@@ -149,6 +176,9 @@ def oracle_set(ctx, o):
                           f"(the value was stored as {v!r}e12 rad/s)", {"kind": "unit", "path": path}, rep)
         else:
             ctx.violation("S5", f"{call}: configuration shows {key} = {shown!r}, expected the requested value {want!r}", {"kind": "value", "path": path}, rep)
+    elif not angle_in_documented_range(kind, shown):
+        ctx.violation("S5", f"{call}: configuration shows {key} = {shown!r}, outside the documented range of the angle ({'(-180, 180]' if kind == 'theta' else '[0, 360)'}); "
+                      f"the requested {v!r} deg is {want!r} there", {"kind": "value", "path": path}, rep)
 
 
 def axis_value(a, b, n, i):
@@ -181,8 +211,9 @@ def oracle_sweep(ctx, o):
         # the swept setup shows both requested values (paths with a known finding are reported by the single-parameter cases)
         for p, w in ((p1, w1), (p2, w2)):
             key, kind = PATHS[p]
-            if kind in ("direct", "deg"):
+            if kind in ("direct", "theta", "phi"):
                 shown = cval(cfg.get(key))
+                w, _tol = expected_shown(p, w)
                 if not isinstance(shown, float) or abs(shown - w) > 0.51e-4:
                     ctx.violation("S5", f"{call}: setup {j} shows {key} = {shown!r}, expected {w!r}", {"kind": "sweep_value", "path": p}, rep)
             elif kind == "poling":
@@ -193,6 +224,24 @@ def oracle_sweep(ctx, o):
                                       {"kind": "poling_unpoled", "path": p}, rep)
                 elif not isinstance(shown, float) or abs(shown - w) > 0.51e-4:
                     ctx.violation("S5", f"{call}: setup {j} shows {key} = {shown!r}, expected {w!r}", {"kind": "sweep_value", "path": p}, rep)
+        # the swept setup against the setup built from the base through the public API in the property's units (first parameter, then second)
+        if it.get("scratch_cfg"):
+            d = cfg_diff(it["scratch_cfg"], cfg)
+            if d:
+                ctx.violation("S5", f"{call}: setup {j} differs from the setup constructed individually with {p1} = {v1!r} then {p2} = {v2!r}: "
+                              f"(individual, swept) = {d}", {"kind": "sweep_individual", "path": p2}, dict(rep, differences=d))
+        rd = it.get("read") or {}
+        for p, w in ((p1, v1), (p2, v2)):
+            key, kind = PATHS[p]
+            if kind == "external" and p == p2:
+                te = rd.get(p.split(".")[0] + "_theta_external_deg")
+                if te is None or abs(fh(te) - w) > 1e-3:
+                    ctx.violation("S5", f"{call}: setup {j}: the {p.split('.')[0]} beam leaves the swept crystal at an external angle of {None if te is None else fh(te)!r} deg, "
+                                  f"requested {w!r}", {"kind": "external", "path": p}, dict(rep, theta_external_deg=None if te is None else fh(te)))
+            if kind == "poling" and p == p2 and rd.get("pp", {}).get("on"):
+                if rd["pp"]["sign"] != rd.get("computed_sign"):
+                    ctx.violation("S5", f"{call}: setup {j}: stored poling sign {rd['pp']['sign']}, but the sign derived for the swept setup is {rd.get('computed_sign')}",
+                                  {"kind": "poling_sign", "path": p}, dict(rep, stored=rd["pp"], derived=rd.get("computed_sign")))
         if not it["identical"]:
             ctx.count("sweep:not_bit_identical_to_individual")
         if it["indiv_cfg"] is None or cfg_diff(it["indiv_cfg"], cfg):
@@ -300,6 +349,10 @@ def correspondence(ctx, obs, label, limit=None):
             continue
         else:
             call = f"{name} {s} {coq_hex(v)}"
+        kind = PATHS[path][1]
+        vv = fh(v)
+        if (kind == "theta" and not (-180.0 < vv < 180.0)) or (kind == "phi" and not (0.0 <= vv < 360.0)):
+            continue
         for q, (proj, val) in enumerate(stored_field(path, o["raw_after"])):
             if not is_finite_hex(val):
                 continue
@@ -390,7 +443,9 @@ def run(ctx):
     ctx.cov["rule"] = ("all 25 paths x (2-4 fixed values + random values on a 1e-4 grid across each field's range) x 4 base setups (default KTP unpoled with auto angle; "
                        "periodically poled KTP with Gaussian apodization, auto period; non-collinear BBO with explicit idler), each applied through a single-point SPDCIter; "
                        "plus periodically poled LiNbO3 type-0 with Bartlett apodization, explicit period and an external signal angle; ~95 unknown paths (neighbouring config fields, unit typos, case / character mutations of every valid path) in both positions; "
-                       "two-parameter sweeps over 8 path pairs x shapes incl. 1xN, Nx1, 1x1; distinct = distinct (base, path, value bits) / path / (pair, shape)")
+                       "beam angles incl. +-180, +-360, -0.0, 270, 720.5 (documented normalisation); two-parameter sweeps over 8 path pairs x shapes incl. 1xN, Nx1, 1x1 "
+                       "and 8 NON-COMMUTING pairs (crystal angle / temperature / wavelength first, external angle or poling period second) on 2 bases each, every swept "
+                       "setup compared with the setup built individually through the public API, external angles read back through Snell, poling sign re-derived; distinct = distinct (base, path, value bits) / path / (pair, shape)")
     ctx.cov["clauses"] = {
         "only the named field changes (all 25 paths)": "proved over the generated table (record-level frame) + measured on SPDC::as_config",
         "named field = requested value in the path's unit (all 25 paths)": "proved against the hand-pinned unit table + measured (4 decimals)",
